@@ -383,6 +383,16 @@ if _os.path.exists(_cal):
         if _pid in PROPS:
             PROPS[_pid]["thresholds"]["quick"] = _t
 
+# Thorough-tier thresholds: the hand-set figures above are what an idle 16-core machine observes within the
+# 1500 s budget; a run is accepted from a quarter of that (a machine four times slower, or shared), and never
+# from less than the quick tier's own minimum.
+for _pid in PROPS:
+    _th = PROPS[_pid]["thresholds"]["thorough"]
+    _q = PROPS[_pid]["thresholds"]["quick"]
+    _th["evaluations"] = max(_q.get("evaluations", 1), _th.get("evaluations", 1) // 4)
+    _th["distinct_nontrivial"] = max(_q.get("distinct_nontrivial", 1), _th.get("distinct_nontrivial", 1) // 4)
+    _th["counters"] = {k: max(1, v // 4) for k, v in _th.get("counters", {}).items()}
+
 # inconclusive reasons that must stay rare: more than this many turns the run into INCONCLUSIVE (exit 2)
 PROPS["C16"]["max_inconclusive"] = {"call-stuck-without-deadlock-witness": 0}
 PROPS["C05"]["max_inconclusive"] = {"cli-run-stopped-by-watchdog": 0}
